@@ -425,7 +425,8 @@ def plan (e : Env) (enc : Bytes → Bytes) : Op → Plan
   | .createBucket b =>
     withPath (getBucketPath e b) [] fun p => .ok [rd p, cr p]
   | .deleteBucket b =>
-    withPath (getBucketPath e b) [] fun p => .ok [rd p, ⟨.delete, .subtree p⟩]
+    -- dbc4627: the bucket directory is walked (looking for an entry that is not a directory) before `remove_dir_all`
+    withPath (getBucketPath e b) [] fun p => .ok [rd p, ⟨.list, .subtree p⟩, ⟨.delete, .subtree p⟩]
   | .headBucket b | .getBucketLocation b =>
     withPath (getBucketPath e b) [] fun p => .ok [rd p]
   | .listBuckets => .ok [⟨.list, .path e.root⟩, ⟨.read, .childrenPrefixed e.root []⟩]
